@@ -321,6 +321,7 @@ let rec run_op (h : hstate) (op : string) : string =
      | _ -> "?")
   | "RTV" :: rest -> "OK:" ^ pr_value (value_of_string (String.concat ":" rest))
   | ["||"] -> "||"
+  | [";;"] -> ";;"
   | ["PROBE"; _; _] -> "-"
   | ["CD"; ctx] -> pr_ctx h.st (n_of_int (int_of_string ctx))
   | ["SD"; kind; name] ->
